@@ -1,7 +1,383 @@
-//! stub
-use serde_json::Value;
-use crate::engine::Ctx;
-pub const RULE: &str = "";
-pub const ASSUMPTIONS: &[&str] = &[];
-pub fn run(_ctx: &Ctx) {}
-pub fn replay(_part: &str, _case: &Value) -> Result<(), String> { Err("not implemented".into()) }
+//! C14 — signs sharing a bus are isolated; replies come only from the addressed sign.
+
+use std::collections::HashSet;
+
+use flipdot_core::{Address, Message, PageFlipStyle, SignBus, SignType, State};
+use flipdot_testing::{VirtualSign, VirtualSignBus};
+use proptest::prelude::*;
+use serde::{Deserialize, Serialize};
+use serde_json::{json, Value};
+
+use crate::engine::{catch, h64, run_generated, Ctx, Stats};
+use crate::oracle::vsign::*;
+use crate::props::c12::{expand, short_op, tiny_block, tiny_block_max3000, Block, Fault, HOp};
+use crate::repr::M;
+
+pub const RULE: &str = "bus populations of 1..4 virtual signs with distinct addresses (adjacent, byte-swapped, 0 and 0xFFFF included), mixed flip styles, both vector orders; interleaved histories of 1..150 operations (single messages, whole transfers with faults, ~30 % abandoned transfers so that several signs are mid-transfer at once) addressed to any sign or to an absent address; plus a breadth-first exploration of a two-sign bus over a reduced alphabet to a depth bound with state deduplication. After every message: (a) the bus reply equals what the addressed sign replies when run alone (replica differential) and carries the addressed address, (b) an addressed message leaves state/type/pages of every other sign unchanged and a message for an absent address changes nothing and gets no reply, (c) an unaddressed data message leaves state/type/pages of every sign that is not in a receiving state unchanged. Non-trivial = a history in which two signs are in a receiving state at once, or a message goes to an absent address; distinct by hash of the history";
+pub const ASSUMPTIONS: &[&str] = &[
+    "\"what that sign alone would have replied\" is obtained from solo VirtualSign replicas that are offered every message (the single-sign behaviour itself is C13's subject)",
+    "observable = state(), sign_type(), pages(); hidden buffers are not compared",
+];
+
+#[derive(Serialize, Deserialize, Debug, Clone, PartialEq, Eq, Hash)]
+pub struct BusCase {
+    pub signs: Vec<(u16, bool)>,
+    pub ops: Vec<HOp>,
+}
+
+type Obs = (State, Option<SignType>, Vec<(u32, u32, Vec<u8>)>);
+
+fn observe(s: &VirtualSign<'_>) -> Obs {
+    (s.state(), s.sign_type(), s.pages().iter().map(|p| (p.width(), p.height(), p.as_bytes().to_vec())).collect())
+}
+
+fn receiving(s: State) -> bool {
+    matches!(s, State::ConfigInProgress | State::PixelsInProgress)
+}
+
+fn flip(automatic: bool) -> PageFlipStyle {
+    if automatic {
+        PageFlipStyle::Automatic
+    } else {
+        PageFlipStyle::Manual
+    }
+}
+
+/// the address a message is directed at (None for the unaddressed data messages)
+fn target(m: &M) -> Option<u16> {
+    match m {
+        M::Data { .. } | M::Count(_) => None,
+        M::Hello(a) | M::Query(a) | M::Goodbye(a) | M::PixelsComplete(a) | M::Report(a, _) | M::Req(a, _) | M::Ack(a, _) => Some(*a),
+        M::Unknown { addr, .. } => Some(*addr),
+    }
+}
+
+pub struct BusPair {
+    pub addrs: Vec<u16>,
+    pub bus: VirtualSignBus<'static>,
+    pub replicas: Vec<VirtualSign<'static>>,
+}
+
+impl BusPair {
+    pub fn new(signs: &[(u16, bool)]) -> Self {
+        BusPair {
+            addrs: signs.iter().map(|s| s.0).collect(),
+            bus: VirtualSignBus::new(signs.iter().map(|(a, f)| VirtualSign::new(Address(*a), flip(*f)))),
+            replicas: signs.iter().map(|(a, f)| VirtualSign::new(Address(*a), flip(*f))).collect(),
+        }
+    }
+
+    /// deliver one message and evaluate clauses (a), (b), (c)
+    pub fn step(&mut self, m: &M, msg: &Message<'static>) -> Result<(), String> {
+        let n = self.addrs.len();
+        let before: Vec<Obs> = (0..n).map(|i| observe(self.bus.sign(i))).collect();
+        let reply = catch(|| self.bus.process_message(msg.clone()).map_err(|e| e.to_string()))
+            .map_err(|p| format!("bus panicked on {}: {p}", m.short()))?
+            .map_err(|e| format!("bus returned an error on {}: {e}", m.short()))?;
+        // replicas: every solo sign is offered the message
+        let mut solo: Vec<Option<Message<'static>>> = Vec::with_capacity(n);
+        for r in self.replicas.iter_mut() {
+            solo.push(catch(|| r.process_message(msg)).map_err(|p| format!("solo sign panicked on {}: {p}", m.short()))?);
+        }
+        let after: Vec<Obs> = (0..n).map(|i| observe(self.bus.sign(i))).collect();
+        let tgt = target(m);
+        // (a) reply
+        let expected_reply: Option<Message<'static>> = match tgt.and_then(|a| self.addrs.iter().position(|x| *x == a)) {
+            Some(i) => solo[i].clone(),
+            None => None,
+        };
+        if reply != expected_reply {
+            return Err(format!(
+                "bus replies {:?} to {}, but the addressed sign alone replies {:?}",
+                reply.as_ref().map(|r| M::from_message(r).short()),
+                m.short(),
+                expected_reply.as_ref().map(|r| M::from_message(r).short())
+            ));
+        }
+        if let (Some(r), Some(a)) = (&reply, tgt) {
+            if target(&M::from_message(r)) != Some(a) {
+                return Err(format!("the reply {} to {} does not carry the addressed sign's address", M::from_message(r).short(), m.short()));
+            }
+        }
+        for i in 0..n {
+            // (a) the sign on the bus ends up like the sign run alone
+            let solo_obs = observe(&self.replicas[i]);
+            if after[i] != solo_obs {
+                return Err(format!(
+                    "after {} sign {:#x} on the bus is in state {:?} with {} pages (type {:?}); alone it would be {:?} with {} pages (type {:?})",
+                    m.short(),
+                    self.addrs[i],
+                    after[i].0,
+                    after[i].2.len(),
+                    after[i].1,
+                    solo_obs.0,
+                    solo_obs.2.len(),
+                    solo_obs.1
+                ));
+            }
+            match tgt {
+                // (b) addressed message: every other sign unchanged (absent address: all signs unchanged)
+                Some(a) => {
+                    if self.addrs[i] != a && after[i] != before[i] {
+                        return Err(format!(
+                            "{} changed sign {:#x} ({:?}/{} pages -> {:?}/{} pages)",
+                            m.short(),
+                            self.addrs[i],
+                            before[i].0,
+                            before[i].2.len(),
+                            after[i].0,
+                            after[i].2.len()
+                        ));
+                    }
+                }
+                // (c) unaddressed data message: signs not in a receiving state unchanged
+                None => {
+                    if !receiving(before[i].0) && after[i] != before[i] {
+                        return Err(format!(
+                            "sig=stray-data:{:?}; unaddressed {} changed sign {:#x}, which was not receiving ({:?}/{} pages -> {:?}/{} pages)",
+                            before[i].0,
+                            m.short(),
+                            self.addrs[i],
+                            before[i].0,
+                            before[i].2.len(),
+                            after[i].0,
+                            after[i].2.len()
+                        ));
+                    }
+                }
+            }
+        }
+        if let Some(a) = tgt {
+            if !self.addrs.contains(&a) && reply.is_some() {
+                return Err(format!("{} for an address nobody has got a reply", m.short()));
+            }
+        }
+        Ok(())
+    }
+
+    fn receiving_count(&self) -> usize {
+        (0..self.addrs.len()).filter(|&i| receiving(self.bus.sign(i).state())).count()
+    }
+}
+
+pub fn check_bus(c: &BusCase, st: &mut Stats) -> Result<(), String> {
+    let mut seen = HashSet::new();
+    let signs: Vec<(u16, bool)> = c.signs.iter().filter(|(a, _)| seen.insert(*a)).cloned().collect();
+    if signs.is_empty() {
+        return Ok(());
+    }
+    let mut pair = BusPair::new(&signs);
+    // models only size the pixel-transfer macros
+    let mut models: Vec<SignModel> = signs.iter().map(|(a, f)| SignModel::new(*a, *f)).collect();
+    let mut two_receiving = false;
+    let mut absent = false;
+    let mut k = 0usize;
+    for (i, op) in c.ops.iter().enumerate() {
+        let (w, h) = match op {
+            HOp::Pixels { addr, .. } => models.iter().find(|m| m.addr == *addr).map(|m| (m.w, m.h)).unwrap_or((12, 8)),
+            _ => (0, 0),
+        };
+        let (msgs, reps): (Vec<M>, u32) = match op {
+            HOp::Repeat { msg, n } => (vec![msg.clone()], (*n).min(300)),
+            other => (expand(other, w, h), 1),
+        };
+        for m in &msgs {
+            let message = m.to_message();
+            for _ in 0..reps {
+                pair.step(m, &message).map_err(|e| format!("op {i} (message {k}): {e}"))?;
+                st.eval();
+                k += 1;
+                for md in models.iter_mut() {
+                    let _ = md.step(m);
+                }
+                if pair.receiving_count() >= 2 {
+                    two_receiving = true;
+                }
+                if let Some(a) = target(m) {
+                    if !pair.addrs.contains(&a) {
+                        absent = true;
+                    }
+                }
+            }
+        }
+    }
+    if two_receiving || absent {
+        st.nontrivial(h64(c));
+    }
+    if two_receiving {
+        st.class("two-signs-receiving-at-once");
+    }
+    if absent {
+        st.class("message-to-absent-address");
+    }
+    st.class(&format!("population:{}", signs.len()));
+    if st.want_sample() && two_receiving && c.ops.len() <= 10 {
+        st.sample(json!({"signs": signs, "ops": c.ops.iter().map(short_op).collect::<Vec<_>>()}));
+    }
+    Ok(())
+}
+
+// ---------------------------------------------------------------------------------------
+
+fn bus_block_strategy() -> impl Strategy<Value = Block> {
+    prop_oneof![
+        5 => Just(Block::Raw(tiny_block(12, 8))),
+        2 => Just(Block::Raw(tiny_block_max3000(20, 8, 8))),
+        3 => proptest::sample::select(vec![5u8, 4, 3, 10]).prop_map(Block::Real),
+        1 => (0u8..11).prop_map(Block::Real),
+    ]
+}
+
+fn bus_fault_strategy() -> impl Strategy<Value = Fault> {
+    prop_oneof![
+        10 => Just(Fault::None),
+        6 => Just(Fault::NoCount),
+        1 => any::<u16>().prop_map(Fault::Drop),
+        1 => any::<u16>().prop_map(Fault::Extra),
+        1 => prop_oneof![Just(1i8), Just(-1i8)].prop_map(Fault::CountDelta),
+    ]
+}
+
+fn bus_msg_strategy(addrs: Vec<u16>) -> impl Strategy<Value = M> {
+    let a = proptest::sample::select(addrs);
+    prop_oneof![
+        3 => a.clone().prop_map(M::Hello),
+        3 => a.clone().prop_map(M::Query),
+        1 => a.clone().prop_map(M::Goodbye),
+        2 => a.clone().prop_map(M::PixelsComplete),
+        10 => (a.clone(), 0u8..6).prop_map(|(a, o)| M::Req(a, o)),
+        1 => (a.clone(), 0u8..13).prop_map(|(a, s)| M::Report(a, s)),
+        1 => (a.clone(), 0u8..6).prop_map(|(a, o)| M::Ack(a, o)),
+        1 => (a.clone(), 7u8..=255).prop_map(|(addr, ty)| M::Unknown { addr, ty, data: vec![0] }),
+        8 => (proptest::sample::select(vec![0u16, 0, 16, 32]), prop_oneof![
+            3 => Just(tiny_block(12, 8)),
+            1 => Just(tiny_block_max3000(20, 8, 8)),
+            3 => Just(vec![0xABu8; 16]),
+            1 => Just(vec![0xCDu8; 15]),
+        ]).prop_map(|(off, data)| M::Data { off, data }),
+        5 => (0u16..6).prop_map(M::Count),
+    ]
+}
+
+fn bus_case_strategy(max_ops: usize) -> impl Strategy<Value = BusCase> {
+    (proptest::sample::subsequence(vec![0u16, 1, 2, 0x0100, 0x0200, 0xFFFF, 0xFFFE], 1..=4), any::<bool>())
+        .prop_flat_map(move |(mut addrs, reverse)| {
+            if reverse {
+                addrs.reverse();
+            }
+            let n = addrs.len();
+            let mut targets = addrs.clone();
+            targets.extend(addrs.clone()); // present addresses twice as likely as each absent one
+            targets.push(0x7777);
+            targets.push(addrs[0].swap_bytes() ^ 0x0400);
+            let a = proptest::sample::select(targets.clone());
+            let op = prop_oneof![
+                12 => bus_msg_strategy(targets).prop_map(HOp::Msg),
+                4 => (a.clone(), bus_block_strategy(), bus_fault_strategy()).prop_map(|(addr, block, fault)| HOp::Config { addr, block, fault }),
+                5 => (a.clone(), 0u8..3, any::<u64>(), bus_fault_strategy(), any::<bool>())
+                    .prop_map(|(addr, pages, seed, fault, complete)| HOp::Pixels { addr, pages, seed, fault, complete }),
+                1 => (a.clone(), 1u8..8).prop_map(|(addr, steps)| HOp::Flip { addr, steps }),
+            ];
+            (Just(addrs), proptest::collection::vec(any::<bool>(), n), proptest::collection::vec(op, 1..max_ops))
+        })
+        .prop_map(|(addrs, flips, ops)| BusCase { signs: addrs.into_iter().zip(flips).collect(), ops })
+}
+
+// depth-bounded BFS over a two-sign bus ---------------------------------------------------------
+
+fn bfs_two_signs(ctx: &Ctx, depth: u32, max_states: usize) {
+    let signs = vec![(1u16, false), (0x0100u16, true)];
+    let mut alphabet: Vec<M> = vec![];
+    for a in [1u16, 0x0100, 0x0101] {
+        alphabet.push(M::Query(a));
+        alphabet.push(M::Goodbye(a));
+        alphabet.push(M::PixelsComplete(a));
+        for o in [O_RECEIVE_CONFIG, O_RECEIVE_PIXELS, O_START_RESET, O_FINISH_RESET] {
+            alphabet.push(M::Req(a, o));
+        }
+    }
+    alphabet.push(M::Data { off: 0, data: tiny_block(12, 8) });
+    alphabet.push(M::Data { off: 16, data: vec![0xAB; 16] });
+    alphabet.push(M::Count(0));
+    alphabet.push(M::Count(1));
+    alphabet.push(M::Count(2));
+    let messages: Vec<Message<'static>> = alphabet.iter().map(|m| m.to_message()).collect();
+
+    struct Node {
+        pair_bus: VirtualSignBus<'static>,
+        replicas: Vec<VirtualSign<'static>>,
+        id: u64,
+        history: Vec<u16>,
+    }
+    let root = BusPair::new(&signs);
+    let key = |bus: &VirtualSignBus<'static>, reps: &Vec<VirtualSign<'static>>| h64(&(bus, reps));
+    let rid = key(&root.bus, &root.replicas);
+    let mut visited: HashSet<u64> = HashSet::new();
+    visited.insert(rid);
+    let mut frontier = vec![Node { pair_bus: root.bus, replicas: root.replicas, id: rid, history: vec![] }];
+    let mut transitions = 0u64;
+    let mut two_recv_states = 0u64;
+    let mut level = 0u32;
+    let mut complete = true;
+    while !frontier.is_empty() && level < depth && !ctx.stopped() {
+        level += 1;
+        let mut next: Vec<Node> = vec![];
+        for node in &frontier {
+            for (oi, m) in alphabet.iter().enumerate() {
+                let mut pair = BusPair { addrs: signs.iter().map(|s| s.0).collect(), bus: node.pair_bus.clone(), replicas: node.replicas.clone() };
+                transitions += 1;
+                if let Err(e) = pair.step(m, &messages[oi]) {
+                    let mut ops: Vec<HOp> = node.history.iter().map(|&i| HOp::Msg(alphabet[i as usize].clone())).collect();
+                    ops.push(HOp::Msg(m.clone()));
+                    let case = BusCase { signs: signs.clone(), ops };
+                    ctx.fail("bfs-two-signs", serde_json::to_value(&case).unwrap(), e);
+                    return;
+                }
+                // bound the buffers so the space stays finite
+                let too_big = (0..2).any(|i| pair.bus.sign(i).pages().len() > 1);
+                if too_big {
+                    continue;
+                }
+                let id = key(&pair.bus, &pair.replicas);
+                if visited.insert(id) {
+                    if pair.receiving_count() >= 2 {
+                        two_recv_states += 1;
+                    }
+                    let mut history = node.history.clone();
+                    history.push(oi as u16);
+                    next.push(Node { pair_bus: pair.bus, replicas: pair.replicas, id, history });
+                }
+            }
+        }
+        let _ = frontier.iter().map(|n| n.id).count();
+        frontier = next;
+        if visited.len() > max_states {
+            complete = false;
+            break;
+        }
+    }
+    let mut st = Stats::new();
+    st.evals(transitions);
+    st.nontrivial_enumerated(two_recv_states);
+    st.class_n("bfs-states-with-two-signs-receiving", two_recv_states);
+    ctx.merge("bfs-two-signs", st);
+    ctx.extra_add("states", visited.len() as u64);
+    ctx.extra_add("transitions", transitions);
+    ctx.part_done(
+        "bfs-two-signs",
+        false,
+        json!({"signs": signs, "alphabet": alphabet.len(), "depth_reached": level, "depth_bound": depth, "states": visited.len(), "transitions": transitions,
+               "complete_to_depth": complete && (frontier.is_empty() || level == depth), "fixed_point": frontier.is_empty()}),
+    );
+}
+
+pub fn run(ctx: &Ctx) {
+    bfs_two_signs(ctx, ctx.tier.pick(7, 10), ctx.tier.pick(150_000, 3_000_000));
+    run_generated(ctx, "bus-history", ctx.tier.pick(30_000, 1_000_000), || bus_case_strategy(60), |c, st| check_bus(c, st));
+    run_generated(ctx, "bus-history-long", ctx.tier.pick(2_000, 60_000), || bus_case_strategy(300), |c, st| check_bus(c, st));
+}
+
+pub fn replay(_part: &str, case: &Value) -> Result<(), String> {
+    let c: BusCase = serde_json::from_value(case.clone()).map_err(|e| format!("bad case: {e}"))?;
+    check_bus(&c, &mut Stats::new())
+}
